@@ -33,6 +33,8 @@ CONFIG = dict(
         dict(test="TestC30Timed", quick=200, thorough=6400, shards=16, shrinktime="1s"),
         dict(test="TestC30SecondWaiterFits", quick=4, thorough=96, shards=16, shrinktime="1s"),
         dict(test="TestC30SteadyReleases", quick=20, thorough=640, shards=16, shrinktime="1s"),
+        # two callers blocked at once whose deadlines are 1.6-1.8 s apart, nothing released: each returns after its own timeout
+        dict(test="TestC30TwoDeadlines", quick=4, thorough=96, shards=16, shrinktime="1s"),
         dict(test="TestC30Regression", kind="plain"),
     ],
 )
